@@ -1,6 +1,6 @@
 (* C01 -- random-access AES-CTR reads equal whole-stream decryption (3DS and DSi mode). *)
 From Pyctr Require Import Base.Prelude Base.ListExt Base.PyInt Base.PySlice Env.PyFile Env.FileIface
-  Spec.StreamCipher Env.Cipher Model.Window Model.CtrIO Proofs.WindowProofs Proofs.WrapInstances Proofs.CtrProofs Proofs.TwlProofs.
+  Spec.StreamCipher Env.Cipher Model.Window Model.CtrIO Proofs.WindowProofs Proofs.WrapInstances Proofs.CtrProofs Proofs.TwlProofs Proofs.CtrChunkProofs.
 From Dyn Require Import Gen_engine CTR_bridge.
 
 Section C01.
@@ -26,6 +26,32 @@ Proof.
   apply (ctr_history_ok E (window_ops off sz) (win_inside off sz) (win_content off sz) wseek
            (window_lawful_inside off sz Ho Hs) false).
   intros s d H. destruct (window_write_law off sz s d Ho Hs H) as (k & s' & ? & ? & ? & ? & ?). exists k, s'. auto.
+Qed.
+
+(* composition, 3DS mode: consecutive reads in ANY chunking (sizes negative, zero, sub-block, over-long, past the end), started with
+   any cached cipher the invariant allows, glue back to ONE slice of the whole-stream decryption starting at the initial position *)
+Theorem C01_ctr_chunks_glue : forall ns io,
+  io_inv pf_ok fdata fpos true key counter io -> 0 <= fpos (cu io) ->
+  let '(rs, io') := ctr_run E pyfile_ops key counter false io (map CRead ns) in
+  exists t, cglue rs = Some t /\
+    t = slice (stream_dec E false key counter (fdata (cu io))) (fpos (cu io)) (len t) /\
+    fpos (cu io') = fpos (cu io) + len t /\ fdata (cu io') = fdata (cu io) /\ io_inv pf_ok fdata fpos true key counter io'.
+Proof.
+  intros ns. apply (ctr_chunks_glue E pyfile_ops pf_ok fdata fpos pyfile_lawful true).
+  intros s d H. destruct (pyfile_write_law s d H) as (k & s' & ? & ? & ? & ? & ?). exists k, s'. auto.
+Qed.
+
+(* the cached cipher object never shows: two wrapper states with the same contents and position answer a read alike, whatever
+   cipher (made for another position, for the other direction, or none) each has cached *)
+Theorem C01_ctr_cache_invisible : forall io1 io2 n,
+  io_inv pf_ok fdata fpos true key counter io1 -> io_inv pf_ok fdata fpos true key counter io2 ->
+  fdata (cu io1) = fdata (cu io2) -> fpos (cu io1) = fpos (cu io2) ->
+  forall out1 io1' out2 io2',
+  ctr_step E pyfile_ops key counter false io1 (CRead n) = (CBytes out1, io1') ->
+  ctr_step E pyfile_ops key counter false io2 (CRead n) = (CBytes out2, io2') -> out1 = out2.
+Proof.
+  apply (ctr_read_cache_invisible E pyfile_ops pf_ok fdata fpos pyfile_lawful true).
+  intros s d H. destruct (pyfile_write_law s d H) as (k & s' & ? & ? & ? & ? & ?). exists k, s'. auto.
 Qed.
 
 (* DSi mode (keyslots 0-3): the per-block reversal is invisible at every offset and length; any lawful file *)
@@ -60,6 +86,8 @@ Print Assumptions C01_twl_read.
 Print Assumptions C01_twl_reversal_invisible.
 Print Assumptions C01_mode_by_keyslot.
 Print Assumptions C01_gen_leaves.
+Print Assumptions C01_ctr_chunks_glue.
+Print Assumptions C01_ctr_cache_invisible.
 
 (* non-vacuity: a toy block function, an unaligned history reusing the cached cipher *)
 Definition toyE (k b : list Z) : list Z := map (fun x => Z.lxor (x + 7) (hd 0 k) mod 256) (rev b).
@@ -69,4 +97,11 @@ Example C01_example :
   = [CInt 5; CBytes (slice (stream_dec toyE false [3] 5 (map Z.of_nat (seq 0 40))) 5 7);
      CBytes (slice (stream_dec toyE false [3] 5 (map Z.of_nat (seq 0 40))) 12 20); CInt 37;
      CBytes (slice (stream_dec toyE false [3] 5 (map Z.of_nat (seq 0 40))) 37 3)].
+Proof. vm_compute. reflexivity. Qed.
+
+(* chunked reading of the same file: 5 + 0 + 11 + over-long + past the end = the whole decryption *)
+Example C01_chunks_example :
+  let io := mkCtrIO (mkFile (map Z.of_nat (seq 0 40)) 0) None false in
+  cglue (fst (ctr_run toyE pyfile_ops [3] 5 false io (map CRead [5; 0; 11; 100; 4; -1])))
+  = Some (stream_dec toyE false [3] 5 (map Z.of_nat (seq 0 40))).
 Proof. vm_compute. reflexivity. Qed.
